@@ -429,6 +429,9 @@ func unpackEngine(c *Ctx) {
 	// permanent corpus of header lists that once panicked or are traps
 	corpus := []string{
 		"unpack tar " + lossless + " - none -",
+		// the root itself is a device node and the filter ejects devices: nothing is left (was an index-out-of-range panic)
+		"unpack tar uid=follow,gid=follow,mtime=follow,sticky=follow,setid=follow,dev=ignore - none " + RawHdr{Name: ".", Typeflag: '3', Mode: 0666, Maj: 1, Min: 3}.tok(),
+		"unpack tar uid=follow,gid=follow,mtime=follow,sticky=follow,setid=follow,dev=ignore - none " + RawHdr{Name: ".", Typeflag: '4', Mode: 0666, Maj: 8, Min: 0}.tok() + ";" + RawHdr{Name: "a", Typeflag: '0', Mode: 0644}.tok(),
 		"unpack tar " + lossless + " - none " + RawHdr{Name: "/abs", Typeflag: '0'}.tok(),
 		"unpack tar " + lossless + " - none " + RawHdr{Name: "a", Typeflag: '0'}.tok() + ";" + RawHdr{Name: "a", Typeflag: '0'}.tok(),
 		"unpack tar " + lossless + " - none " + RawHdr{Name: "a/b", Typeflag: '0'}.tok() + ";" + RawHdr{Name: "a/", Typeflag: '5', Mode: 0700, Uid: 7, Gid: 8, Sec: 99}.tok(),
